@@ -93,7 +93,9 @@ class CtlChannel:
         sim = self.sim
         w = sim.workers[self.n]
         name, kw = obj
-        if w.dead and (sim.nodes[self.n]._down or sim.cfg["strict"]):
+        # the channel of a dead worker is closed for sending once the receiver thread has handled something of it after its
+        # death while the node is marked down (the model's close_if_dead), or at once when channel failure is strict
+        if w.dead and (self.n in sim.closed or sim.cfg["strict"]):
             raise OSError("cannot send to closed channel")
         if name == "runtests":
             c = ["run", [int(x) for x in kw["indices"]]]
@@ -142,6 +144,7 @@ class Sim:
         self.ctl_events = {}
         self.stepno = 0
         self.crash_info = {}
+        self.closed = set()
         sim = self
         mode = cfg["mode"]
 
@@ -319,6 +322,8 @@ class Sim:
                     self.nodes[n].process_from_remote(self.END if ev == "END" else ev)
             except BaseException as e:  # noqa: BLE001
                 self.result = ["error", self.excname(e)]
+            if w.dead and self.nodes[n]._down:
+                self.closed.add(n)
         elif k == "ctl":
             ds = self.ds
             if ds._active_nodes and ds.queue.empty():
